@@ -276,11 +276,16 @@ def big_Bytes(ex, st, args, ctx):
     L = bytelen(x)
     sh = z3.ZeroExt(BIG - 64, bvval(8, 64) * (bvval(NB, 64) - L))
     y = z3.simplify(x << sh)
-    return new_bytes(ex, st, byte_cells_of_bv(y, NB), L, 0, NB)
+    r = new_bytes(ex, st, byte_cells_of_bv(y, NB), L, 0, NB)
+    st.heap[('bytes_of', r.obj)] = (x, L, st.heap[r.obj].e)      # these bytes denote x: lets SetBytes/hex of the untouched slice skip the length case split
+    return r
 
 
 def bytes_value(ex, st, s):
     """big-endian integer denoted by a byte slice (len <= 32), as BV256"""
+    memo = st.heap.get(('bytes_of', s.obj)) if not isinstance(s.obj, tuple) and s.obj is not None else None
+    if memo is not None and s.off == 0 and z3.is_expr(s.len) and z3.eq(s.len, memo[1]) and isinstance(st.heap.get(s.obj), Array) and st.heap[s.obj].e is memo[2]:
+        return memo[0]      # the untouched result of (*big.Int).Bytes()
     cells = ex.cells(st, s)
     if isinstance(s.len, int):
         if s.len > NB:
